@@ -782,6 +782,58 @@ func (r *taintRun) pushResult(c ssa.CallInstruction, i int, k tk) {
 	}
 }
 
+// privateHelpersOf: static callees of root, up to `depth` levels down, that are
+// called from nowhere else (every call-graph caller is root or another such
+// helper). Code moved out of root into such a function is still "part of root"
+// for the single-symbol exceptions of the rules.
+func privateHelpersOf(p *core.Prog, root *ssa.Function, depth int) map[*ssa.Function]bool {
+	out := map[*ssa.Function]bool{}
+	if root == nil {
+		return out
+	}
+	level := []*ssa.Function{root}
+	for d := 0; d < depth; d++ {
+		var next []*ssa.Function
+		for _, f := range level {
+			for _, call := range core.Calls(f) {
+				g := core.StaticCallee(call)
+				if g == nil || g == root || out[g] || !inModule(g) || g.Blocks == nil {
+					continue
+				}
+				private := true
+				for _, e := range p.Callers(g) {
+					if cf := e.Caller.Func; cf != root && !out[cf] && cf != f {
+						private = false
+					}
+				}
+				if private {
+					out[g] = true
+					next = append(next, g)
+				}
+			}
+		}
+		level = next
+	}
+	return out
+}
+
+// exceptionOwner: the named exception fn falls under — its own name, or the name of
+// the exception function it is a private helper of.
+func exceptionOwner(p *core.Prog, fn *ssa.Function, names []string) string {
+	n := p.Name(fn)
+	for _, x := range names {
+		if x == n {
+			return x
+		}
+	}
+	for _, x := range names {
+		if privateHelpersOf(p, p.Func(x), 2)[fn] {
+			return x
+		}
+	}
+	return ""
+}
+
 // inModule: f belongs to csvq (or the control package), not to a dependency.
 func inModule(f *ssa.Function) bool {
 	pk := core.FnPkg(f)
@@ -2690,9 +2742,14 @@ func ruleIso5(c *Ctx) {
 	}
 	sortFuncs(p, list)
 	for _, fn := range list {
-		name := p.Name(fn)
 		c.Touch(fn)
-		if ld, ok := iso5Loaders[name]; ok {
+		var loaderNames []string
+		for n := range iso5Loaders {
+			loaderNames = append(loaderNames, n)
+		}
+		sort.Strings(loaderNames)
+		if owner := exceptionOwner(p, fn, loaderNames); owner != "" {
+			ld := iso5Loaders[owner]
 			// side condition: what is stored is what the loader returned
 			bad := ""
 			for _, call := range core.Calls(fn) {
@@ -2740,7 +2797,12 @@ func ruleIso5(c *Ctx) {
 			f := core.StaticCallee(call)
 			isPub := isPubCall(call)
 			if !isPub && f != nil && subjects[f] && !frozen[f] {
-				if _, isLoader := iso5Loaders[p.FnRef(f)]; !isLoader {
+				var loaderNames []string
+				for n := range iso5Loaders {
+					loaderNames = append(loaderNames, n)
+				}
+				sort.Strings(loaderNames)
+				if exceptionOwner(p, f, loaderNames) == "" {
 					isPub = true // publication moved into a helper
 				}
 			}
